@@ -170,6 +170,33 @@ func honestProof(t *rapid.T) (uint32, []h32, []byte) {
 	for i := 0; i < k; i++ {
 		matched[rapid.IntRange(0, n-1).Draw(t, "m")] = true
 	}
+	if rapid.IntRange(0, 7).Draw(t, "wide") == 0 {
+		// hundreds of transactions, many of them matched: hundreds of flag bits and of hashes in one message
+		n = rapid.SampledFrom([]int{100, 127, 128, 129, 200, 255, 256, 257, 300, 511, 512, 513, 700, 1000}).Draw(t, "nwide")
+		leaves = make([]h32, n)
+		for i := range leaves {
+			leaves[i] = hashPair(h32{byte(i), byte(i >> 8), salt, 0x77}, h32{})
+		}
+		matched = make([]bool, n)
+		switch rapid.IntRange(0, 3).Draw(t, "widepattern") {
+		case 0:
+			for i := range matched {
+				matched[i] = true
+			}
+		case 1:
+			for i := 0; i < n*2/5; i++ {
+				matched[i] = true
+			}
+		case 2:
+			for i := range matched {
+				matched[i] = i%2 == 0
+			}
+		default:
+			for i := range matched {
+				matched[i] = rapid.IntRange(0, 9).Draw(t, "wm") < 3
+			}
+		}
+	}
 	hs, bits := refPMTBuild(leaves, matched)
 	return uint32(n), hs, packFlagBits(bits)
 }
